@@ -121,20 +121,28 @@ def status_not_dropped(ctx: Context, rule_id: str) -> None:
 
 
 def discovery_error_flag(prog: Program) -> Tuple[FuncInfo, str, Set[int]]:
-    """(discovery function, flag name, ids of the constant-True value nodes assigned to it)."""
+    """(discovery function, flag name, ids of the value nodes that can make it true).  The flag is the
+    boolean local that the discovery function returns next to the list of files and that is not the
+    answer of the list-files helper."""
     func = prog.method("pymarkdown.application_file_scanner.ApplicationFileScanner", "determine_files_to_scan")
+    rets = returns_of(func)
+    if len(rets) != 1 or not isinstance(rets[0], ast.Tuple):
+        raise AnalysisError("determine_files_to_scan does not return one tuple")
     candidates: Dict[str, Set[int]] = {}
-    for node in ast.walk(func.node):
-        for attr in ("body", "orelse"):
-            block = getattr(node, attr, None)
-            if not isinstance(block, list):
-                continue
-            if any(isinstance(s, ast.Break) for s in block):
-                for stmt in block:
-                    if isinstance(stmt, ast.Assign) and isinstance(stmt.value, ast.Constant) and stmt.value.value is True:
-                        for target in stmt.targets:
-                            if isinstance(target, ast.Name):
-                                candidates.setdefault(target.id, set()).add(id(stmt.value))
+    for element in rets[0].elts[1:]:
+        if not isinstance(element, ast.Name):
+            continue
+        values = []
+        for node in walk_local(func.node):
+            if isinstance(node, (ast.Assign, ast.AnnAssign)) and getattr(node, "value", None) is not None:
+                targets = node.targets if isinstance(node, ast.Assign) else [node.target]
+                if any(isinstance(t, ast.Name) and t.id == element.id for t in targets):
+                    values.append(node.value)
+        if not values or any(isinstance(v, ast.Call) for v in values):
+            continue  # filled by a helper call: the 'only listed' answer
+        raising = {id(v) for v in values if not (isinstance(v, ast.Constant) and v.value is False)}
+        if raising:
+            candidates[element.id] = raising
     if len(candidates) != 1:
         raise AnalysisError(f"determine_files_to_scan: cannot identify the discovery error flag (candidates {sorted(candidates)})")
     name = next(iter(candidates))
